@@ -1277,7 +1277,9 @@ def class_specs(draw, names, *, max_depth, hashable, open_classes, kw):
         # names its own fields in __slots__, a TypedDict may sit on a base of the other totality)
         n = draw(st.integers(1, len(fields)))
         spec["inherit"] = n
-        if kw["mods"] > 1 and draw(st.booleans()):
+        # (not for TypedDicts: Python copies a TypedDict base's annotations into the subclass and resolves their text in the
+        # subclass's module - a cross-module TypedDict base with module-local names is unresolvable for Python itself)
+        if kw["mods"] > 1 and not fl.startswith("typeddict") and draw(st.booleans()):
             spec["base_mod"] = draw(st.integers(0, kw["mods"] - 1))
         if fl.startswith("typeddict") and draw(st.booleans()):
             other = "typeddict_partial" if fl == "typeddict" else "typeddict"
